@@ -38,4 +38,28 @@ let cache args =
      | OutOfFuel -> "MODEL-OUT-OF-FUEL")
   | _ -> failwith "cache: bad args"
 
-let () = Registry.register "cache" cache
+(* cachebig: n entries sharing one value of 2^lg bytes in an unlimited cache.  Lists of that length
+   cannot be built, so the model's own decision functions (normalize_conf, needs_room) are applied to
+   states whose size field is the running total; entries are stand-ins (only their number matters). *)
+let cachebig args =
+  match args with
+  | [lru; n; lg] ->
+    let n = int_of_string n and vlen = Z.pow (z_of_int 2) (z_of_int (int_of_string lg)) in
+    let cf = normalize_conf Z0 Z0 Z0 (lru = "1") true in
+    let dummy = { ce_key = []; ce_val = []; ce_linked = (lru = "1") } in
+    let rec go i size acc =
+      if i = n then (size, List.rev acc) else
+        let key = "k" ^ string_of_int i in
+        let add = Z.add (z_of_int (String.length key)) vlen in
+        let st = { cs_entries = List.init i (fun _ -> dummy); cs_size = size; cs_hit = Z0; cs_miss = Z0 } in
+        if Z.ltb cf.cf_max_elem add then go (i + 1) size (("S" ^ string_of_bool false) :: acc)
+        else if needs_room cf st add then (size, List.rev ("MODEL-NEEDS-ROOM" :: acc))
+        else go (i + 1) (Z.add size add) (("S" ^ string_of_bool false) :: acc) in
+    let (size, sets) = go 0 Z0 [] in
+    String.concat " " (sets @ [Printf.sprintf "T%d,%s,0,0" n (string_of_z size)]
+                       @ List.init n (fun _ -> "G" ^ string_of_z vlen) @ ["O0"])
+  | _ -> failwith "cachebig: bad args"
+
+let () =
+  Registry.register "cachebig" cachebig;
+  Registry.register "cache" cache
